@@ -424,7 +424,20 @@ class World(object):
                 self.exceptions.append(("client.update", repr(e)))
                 for m in self.monitors:
                     m.on_exception(self, "client.update", e)
-            for seq, payload in ce.client.getMessages():
+            # how the application reads: every frame (default), only when hasMessages() says so (the idiom of the
+            # library's own tests), one getMessage() at a time, or only every third frame
+            mode = getattr(self, "client_read", "poll")
+            if mode == "guarded":
+                batch = ce.client.getMessages() if ce.client.hasMessages() else []
+            elif mode == "single":
+                batch = []
+                while ce.client.hasMessages():
+                    batch.append(ce.client.getMessage())
+            elif mode == "lazy3":
+                batch = ce.client.getMessages() if self.tickno % 3 == 0 else []
+            else:
+                batch = ce.client.getMessages()
+            for seq, payload in list(batch):
                 ce.delivered.append((int(seq), payload))
                 for m in self.monitors:
                     m.on_app_message(self, ("c", ce.index), seq, payload)
